@@ -1,3 +1,262 @@
-import Sbdf.Slice
+/-
+  C13 — Write failures are never swallowed.
+  Generic lemmas about `emit` (Sbdf/Lemmas/W.lean) instantiated on every writer entry point.
+-/
+import Sbdf.Lemmas.W
 namespace Sbdf.C13
+open WOut
+
+/-! ### every model writer only has call sites that report a short write -/
+
+theorem sound_int32 (c : Cfg) (v : Int) : Sound (writeInt32 c v) := sound_one _ _ (by decide)
+theorem sound_int8 (v : Nat) : Sound (writeInt8 v) := sound_one _ _ (by decide)
+theorem sound_write7 (v : Int) : Sound (write7 v) := by
+  intro c hc; simp [write7] at hc; obtain ⟨b, _, rfl⟩ := hc; simp
+theorem sound_string (c : Cfg) (s : Bytes) : Sound (writeString c s) :=
+  sound_append (sound_int32 c _) (sound_one _ _ (by decide))
+theorem sound_sec (id : Nat) : Sound (secWrite id) :=
+  sound_append (sound_append (sound_int8 _) (sound_int8 _)) (sound_int8 _)
+theorem sound_fh : Sound fhWrite := sound_append (sound_append (sound_sec _) (sound_int8 _)) (sound_int8 _)
+
+theorem sound_elem (c : Cfg) (p : Bool) (e : Bytes) : Sound (writeElem c p e) := by
+  unfold writeElem
+  apply sound_append
+  · split; exact sound_write7 _; exact sound_int32 c _
+  · split; exact sound_nil; exact sound_one _ _ (by decide)
+
+theorem sound_objects (c : Cfg) (o : Obj) (p : Bool) : Sound (writeObjects c o p) := by
+  unfold writeObjects
+  split
+  · apply sound_append
+    · split; exact sound_int32 c _; exact sound_nil
+    · apply sound_seqAll; intro w hw; simp at hw; obtain ⟨e, _, rfl⟩ := hw; exact sound_elem c p e
+  · split
+    · exact sound_err _
+    · exact sound_one _ _ (by decide)
+
+theorem sound_objArr (c : Cfg) (o : Obj) : Sound (writeObjArr c o) :=
+  sound_append (sound_int32 c _) (sound_objects c o true)
+theorem sound_obj (c : Cfg) (o : Obj) : Sound (writeObj c o) := sound_objects c o false
+
+theorem sound_va (c : Cfg) (va : VA) : Sound (writeVA c va) := by
+  cases va with
+  | plain o => exact sound_append (sound_append (sound_int8 _) (sound_int8 _)) (sound_objArr c o)
+  | rle rows runs vals =>
+    exact sound_append (sound_append (sound_append (sound_append (sound_int8 _) (sound_int8 _))
+      (sound_int32 c _)) (sound_objArr c _)) (sound_objArr c _)
+  | bit vt rows bits =>
+    exact sound_append (sound_append (sound_append (sound_int8 _) (sound_int8 _)) (sound_int32 c _))
+      (sound_one _ _ (by decide))
+
+theorem sound_cs (c : Cfg) (cs : CS) : Sound (writeCS c cs) := by
+  unfold writeCS
+  refine sound_append (sound_append (sound_append (sound_sec _) (sound_va c _)) (sound_int32 c _)) ?_
+  apply sound_seqAll; intro w hw; simp at hw; obtain ⟨a, b, _, rfl⟩ := hw
+  exact sound_append (sound_string c _) (sound_va c _)
+
+theorem sound_ts (c : Cfg) (ts : TS) : Sound (writeTS c ts) := by
+  unfold writeTS
+  refine sound_append (sound_append (sound_sec _) (sound_int32 c _)) ?_
+  apply sound_seqAll; intro w hw; simp at hw; obtain ⟨o, _, rfl⟩ := hw
+  cases o with
+  | none => exact sound_err _
+  | some cs => exact sound_cs c cs
+
+theorem sound_end : Sound writeTSEnd := sound_sec _
+
+theorem sound_optObj (c : Cfg) (o : Option Obj) : Sound (writeOptObj c o) := by
+  cases o with
+  | none => exact sound_int8 _
+  | some o => exact sound_append (sound_int8 _) (sound_obj c o)
+
+theorem sound_tm (c : Cfg) (t : TM) : Sound (writeTM c t) := by
+  unfold writeTM
+  refine sound_append (sound_append (sound_append (sound_append (sound_sec _) (sound_int32 c _)) ?_) (sound_int32 c _)) ?_
+  · apply sound_seqAll; intro w hw; simp at hw; obtain ⟨e, _, rfl⟩ := hw
+    unfold writeTableEntry
+    split
+    · exact sound_err _
+    · exact sound_append (sound_append (sound_append (sound_append (sound_string c _) (sound_int8 _)) (sound_int8 _))
+        (sound_obj c _)) (sound_optObj c _)
+  · split
+    · exact sound_err _
+    · refine sound_append (sound_append (sound_int32 c _) ?_) ?_
+      · apply sound_seqAll; intro w hw; simp at hw; obtain ⟨e, _, rfl⟩ := hw
+        exact sound_append (sound_append (sound_string c _) (sound_int8 _)) (sound_optObj c _)
+      · apply sound_seqAll; intro w hw; simp at hw; obtain ⟨col, _, rfl⟩ := hw
+        unfold writeColumnFlags
+        apply sound_seqAll; intro w hw; simp at hw; obtain ⟨k, _, rfl⟩ := hw
+        split
+        · split
+          · exact sound_append (sound_int8 _) (sound_obj c _)
+          · exact sound_err _
+        · exact sound_int8 _
+
+/-! ### the property, per call -/
+
+/-- A writer call never reports success for data the stream did not accept: if the call returns
+    OK, the bytes accepted by the stream are all the bytes of the call. -/
+theorem ok_means_complete (w : WOut) (hs : Sound w) (b : Nat) (h : (emit (some b) w).1 = .ok) :
+    (emit (some b) w).2 = w.bytes ∧ w.bytes.length ≤ b ∧ w.st = .ok := by
+  unfold emit at h ⊢
+  by_cases hc : (emitChunks (some b) w.chunks).1 = .ok
+  · simp only [hc, if_true] at h ⊢
+    have := emitChunks_ok_complete b w.chunks hs hc
+    exact ⟨this.1, this.2, h⟩
+  · simp only [hc, if_false] at h
+
+/-- If the stream starts refusing bytes inside a call, that call returns a non-OK status. -/
+theorem short_fails (w : WOut) (hs : Sound w) (b : Nat) (hb : b < w.bytes.length) :
+    (emit (some b) w).1 ≠ .ok := by
+  intro h
+  have := (ok_means_complete w hs b h).2.1
+  omega
+
+/-- what the stream accepted is a prefix of the call's bytes, never longer than the budget -/
+theorem accepted_prefix (w : WOut) (b : Nat) :
+    ∃ t, w.bytes = (emitChunks (some b) w.chunks).2 ++ t ∧ (emitChunks (some b) w.chunks).2.length ≤ b :=
+  emitChunks_prefix b w.chunks
+
+/-! ### the property, for the sequence of calls a table writer makes -/
+
+/-- the calls of `fw`: one shared stream; after a refusal it keeps refusing (budget 0) -/
+def runCalls : Nat → List WOut → List Status
+  | _, [] => []
+  | b, w :: ws =>
+    let r := emit (some b) w
+    let refused := (emitChunks (some b) w.chunks).1 ≠ .ok
+    r.1 :: runCalls (if refused then 0 else b - r.2.length) ws
+
+/-- every writer entry point emits at least one byte before anything else can go wrong -/
+def NonEmptyFirst (w : WOut) : Prop := ∃ c cs, w.chunks = c :: cs ∧ c.bytes ≠ []
+
+theorem exhausted_fails (w : WOut) (hs : Sound w) (hne : NonEmptyFirst w) : (emit (some 0) w).1 ≠ .ok := by
+  obtain ⟨c, cs, hc, hb⟩ := hne
+  unfold emit
+  have : (emitChunks (some 0) w.chunks).1 = c.onFail := by
+    rw [hc]; simp only [emitChunks]
+    have : ¬ c.bytes.length ≤ 0 := by
+      intro h; exact hb (List.length_eq_zero_iff.mp (Nat.le_zero.mp h))
+    simp [this]
+  have hne : c.onFail ≠ .ok := hs c (by rw [hc]; simp)
+  simp [this, hne]
+
+/-- Once the stream has refused, every later call fails. -/
+theorem all_later_fail (ws : List WOut) (hs : ∀ w ∈ ws, Sound w) (hne : ∀ w ∈ ws, NonEmptyFirst w) :
+    ∀ s ∈ runCalls 0 ws, s ≠ .ok := by
+  induction ws with
+  | nil => intro s h; simp [runCalls] at h
+  | cons w ws ih =>
+    intro s h
+    simp only [runCalls, List.mem_cons] at h
+    rcases h with h | h
+    · rw [h]; exact exhausted_fails w (hs w (by simp)) (hne w (by simp))
+    · have hz : (if (emitChunks (some 0) w.chunks).1 ≠ .ok then 0 else 0 - (emit (some 0) w).2.length) = 0 := by
+        split <;> simp
+      rw [hz] at h
+      exact ih (fun x hx => hs x (by simp [hx])) (fun x hx => hne x (by simp [hx])) s h
+
+/-- For every list of writer calls and every budget smaller than their total output: some call
+    fails, and from the first failing call on every call fails. -/
+theorem failure_is_sticky (ws : List WOut) (hs : ∀ w ∈ ws, Sound w) (hne : ∀ w ∈ ws, NonEmptyFirst w)
+    (hst : ∀ w ∈ ws, w.st = .ok)
+    (b : Nat) (hb : b < (ws.map (fun w => w.bytes.length)).sum) :
+    ∃ pre post, runCalls b ws = pre ++ post ∧ (∀ s ∈ pre, s = .ok) ∧ post ≠ [] ∧ ∀ s ∈ post, s ≠ .ok := by
+  induction ws generalizing b with
+  | nil => simp at hb
+  | cons w ws ih =>
+    simp only [runCalls]
+    by_cases hok : (emit (some b) w).1 = .ok
+    · -- this call succeeded completely: recurse with the reduced budget
+      have hc := ok_means_complete w (hs w (by simp)) b hok
+      have hnr : ¬ ((emitChunks (some b) w.chunks).1 ≠ .ok) := by
+        intro h; unfold emit at hok; simp [h] at hok
+      simp only [hnr, if_false]
+      simp only [List.map_cons, List.sum_cons] at hb
+      have hb' : b - (emit (some b) w).2.length < (ws.map (fun w => w.bytes.length)).sum := by
+        rw [hc.1]; omega
+      obtain ⟨pre, post, h1, h2, h3, h4⟩ := ih (fun x hx => hs x (by simp [hx])) (fun x hx => hne x (by simp [hx]))
+        (fun x hx => hst x (by simp [hx])) _ hb'
+      refine ⟨(emit (some b) w).1 :: pre, post, by rw [h1]; rfl, ?_, h3, h4⟩
+      intro s hs'; simp at hs'; rcases hs' with h | h
+      · rw [h, hok]
+      · exact h2 s h
+    · refine ⟨[], _, rfl, by simp, by simp, ?_⟩
+      intro s hs'
+      simp only [List.mem_cons] at hs'
+      rcases hs' with h | h
+      · rw [h]; exact hok
+      · have hr : (emitChunks (some b) w.chunks).1 ≠ .ok := by
+          intro hc
+          apply hok
+          unfold emit
+          simp [hc, hst w (by simp)]
+        have hz : (if (emitChunks (some b) w.chunks).1 ≠ .ok then 0 else b - (emit (some b) w).2.length) = 0 := by
+          rw [if_pos hr]
+        rw [hz] at h
+        exact all_later_fail ws (fun x hx => hs x (by simp [hx])) (fun x hx => hne x (by simp [hx])) s h
+
+/-! ### instantiation: the calls of a table writer -/
+
+theorem nonEmpty_append {a b : WOut} (ha : NonEmptyFirst a) : NonEmptyFirst (a ++ b) := by
+  by_cases h : a.st = .ok
+  · obtain ⟨c, cs, hc, hb⟩ := ha
+    exact ⟨c, cs ++ b.chunks, by rw [(append_ok h).1, hc]; rfl, hb⟩
+  · rw [append_err h]; exact ha
+
+theorem nonEmpty_int8 (v : Nat) : NonEmptyFirst (writeInt8 v) := ⟨⟨[UInt8.ofNat v], .io⟩, [], rfl, by simp⟩
+
+theorem nonEmpty_sec (id : Nat) : NonEmptyFirst (secWrite id) :=
+  nonEmpty_append (nonEmpty_append (nonEmpty_int8 _))
+
+theorem nonEmpty_fh : NonEmptyFirst fhWrite := nonEmpty_append (nonEmpty_append (nonEmpty_sec _))
+
+theorem nonEmpty_end : NonEmptyFirst writeTSEnd := nonEmpty_sec _
+
+theorem nonEmpty_tm (c : Cfg) (t : TM) : NonEmptyFirst (writeTM c t) := by
+  unfold writeTM
+  exact nonEmpty_append (nonEmpty_append (nonEmpty_append (nonEmpty_append (nonEmpty_sec _))))
+
+theorem nonEmpty_ts (c : Cfg) (ts : TS) : NonEmptyFirst (writeTS c ts) := by
+  unfold writeTS
+  exact nonEmpty_append (nonEmpty_append (nonEmpty_sec _))
+
+/-- the calls a table writer makes, in order -/
+def tableCalls (c : Cfg) (t : Table) : List WOut :=
+  [fhWrite, writeTM c t.tm] ++ t.slices.map (writeTS c) ++ [writeTSEnd]
+
+theorem tableCalls_sound (c : Cfg) (t : Table) : ∀ w ∈ tableCalls c t, Sound w := by
+  intro w hw
+  simp only [tableCalls, List.cons_append, List.nil_append, List.mem_cons, List.mem_append, List.mem_map,
+    List.not_mem_nil, or_false] at hw
+  rcases hw with rfl | rfl | ⟨ts, _, rfl⟩ | rfl
+  · exact sound_fh
+  · exact sound_tm c _
+  · exact sound_ts c _
+  · exact sound_end
+
+theorem tableCalls_nonEmpty (c : Cfg) (t : Table) : ∀ w ∈ tableCalls c t, NonEmptyFirst w := by
+  intro w hw
+  simp only [tableCalls, List.cons_append, List.nil_append, List.mem_cons, List.mem_append, List.mem_map,
+    List.not_mem_nil, or_false] at hw
+  rcases hw with rfl | rfl | ⟨ts, _, rfl⟩ | rfl
+  · exact nonEmpty_fh
+  · exact nonEmpty_tm c _
+  · exact nonEmpty_ts c _
+  · exact nonEmpty_end
+
+/-- C13 for tables: for every table the writers can represent and every offset `b` below the
+    length of its encoding at which the stream starts refusing bytes, the call in progress
+    returns a non-OK status and so does every later call (header, table metadata, every slice,
+    end marker). -/
+theorem table_write_faults (c : Cfg) (t : Table) (hrep : ∀ w ∈ tableCalls c t, w.st = .ok) (b : Nat)
+    (hb : b < ((tableCalls c t).map (fun w => w.bytes.length)).sum) :
+    ∃ pre post, runCalls b (tableCalls c t) = pre ++ post ∧ (∀ s ∈ pre, s = .ok) ∧ post ≠ [] ∧
+      ∀ s ∈ post, s ≠ .ok :=
+  failure_is_sticky _ (tableCalls_sound c t) (tableCalls_nonEmpty c t) hrep b hb
+
+/-- non-vacuity: a writer with a short budget -/
+example : (emit (some 2) fhWrite).1 = .io ∧ (emit (some 2) fhWrite).2 = [0xdf, 0x5b] ∧
+    (emit (some 5) fhWrite).1 = .ok := by decide
+
 end Sbdf.C13
